@@ -21,10 +21,10 @@ NS_MAPS = [None, None, {"p": "urn:a"}, {"q": "urn:unused"}, {"p": "urn:a", "p2":
            {"": "urn:a"}, {"ns0": "urn:b"}, {"ns1": "urn:a", "ns0": "http://example.com/c"}]
 
 
-def field_at(m, inst, path):
-    """walk the instance recipe along a diff path like .f1[2].f0; return (class desc, field desc) of the last field"""
+def fields_along(m, inst, path):
+    """walk the instance recipe along a diff path like .f1[2].f0; return [(class desc, field desc)] of every field crossed"""
     cur = inst
-    last = None
+    out = []
     for name, idx in re.findall(r"\.(\w+)|\[(\d+)\]", path):
         if cur is None:
             break
@@ -35,14 +35,14 @@ def field_at(m, inst, path):
             fs = {f["name"]: f for f in G.all_fields(m, c)}
             if name not in fs:
                 break
-            last = (c, fs[name])
+            out.append((c, fs[name]))
             cur = cur["fields"].get(name)
         else:
             if isinstance(cur, list) and int(idx) < len(cur):
                 cur = cur[int(idx)]
             else:
                 break
-    return last
+    return out
 
 
 def variants(case):
@@ -57,6 +57,8 @@ def variants(case):
         v["no_indent"] = dict(case, config={k: x for k, x in case["config"].items() if k != "indent"})
     if case.get("writer") == "native":
         v["lxml_writer"] = dict(case, writer="lxml")
+    if case.get("handler") == "native":
+        v["lxml_handler"] = dict(case, handler="lxml")
     return v
 
 
@@ -81,17 +83,20 @@ def classify(m, inst, case, res, vres):
         return "exception-" + res["exc"]
     if path.endswith("<keys>") and "XMLSchema-instance}" in res.get("back", ""):
         return "xsi-attr-captured-by-attributes-map"
-    loc = field_at(m, inst, path)
-    if loc is None:
+    along = fields_along(m, inst, path)
+    if not along:
         return "root"
-    c, f = loc
-    tp = f.get("type")
-    if f["kind"] == "Text" and res.get("diff", "").endswith("vs NoneType>"):
-        return "harness-unrepresentable-empty-text"
-    if f["kind"] == "Element":
-        target_nillable = bool(tp and tp[0] == "class" and G.find_class(m, tp[1])["meta"].get("nillable"))
-        if f.get("nillable") or target_nillable:
-            return "nil-conflation"
+    if explains("lxml_handler"):
+        return "native-handler-only"
+    for c, f in along:
+        tp = f.get("type")
+        if c["meta"].get("nillable") and "NoneType" in path and f is along[-1][1]:
+            return "nil-conflation"      # the owning element itself carries xsi:nil (nillable class)
+        if f["kind"] == "Element":
+            target_nillable = bool(tp and tp[0] == "class" and G.find_class(m, tp[1])["meta"].get("nillable"))
+            if (f.get("nillable") or target_nillable) and ("NoneType" in path or "<len " in path):
+                return "nil-conflation"     # one side is None: xsi:nil written for / read as an empty value
+    c, f = along[-1]
     return "other-" + f["kind"]
 
 
